@@ -20,6 +20,9 @@ CLAIMS = {
  'C03': ('pzv-scheme', 'property-based testing with an exact integer phase oracle and a deterministic gadget-product bound built from the exactly extracted errors of the actual key cells (clear secrets via hook H4), proptest, 4 backends',
          'glwe_keyswitch(_assign), the eight glwe_automorphism forms over every odd Galois element, glwe_trace(_assign) at every start level, lwe_keyswitch / glwe_from_lwe / lwe_from_glwe at every index / lwe_sample_extract, gglwe_keyswitch(_assign), automorphism-key automorphism (incl. the Galois-element metadata), glwe_pack over generated slot subsets and output gaps and the streaming GLWEPacker (bit-reversed order, batches): generated gadget shapes (dnum 1..4, dsize 1..4, spare limbs, k not a multiple of the radix, a_size not a multiple of dsize), ranks in/out 1..3, independent input / key / result radices, inputs with uniform / extreme / sparse digits. The exact phase of the result under the clear output secret must equal the expected image of the exact input phase within the worst-case bound of the gadget product computed from the true key errors; key cells produced by the library must encrypt the gadget-scaled input secret within the fresh-encryption bound.',
          'Trusted: hook H4, the phase model, the bound formula of gad.rs (documented term by term). The bound is a worst case (L1 norms), about sqrt(N * digits) above typical noise: a regression that increases the noise by less than that factor is not detected. GGSW key-switch / automorphism are checked with C04 (they are gadget products followed by row expansion). N <= 128.', 'DESIGN.md section 6 C03'),
+ 'C04': ('pzv-scheme', 'property-based testing with an exact integer phase oracle (exact negacyclic product m2 * phase) and a deterministic gadget bound built from the exactly extracted errors of the actual GGSW / key cells, proptest, 4 backends',
+         'glwe_external_product(_assign), gglwe / ggsw external products incl. results with fewer / more rows than the input, CMux (cmux, cmux_assign, cmux_assign_neg) and CSwap of poulpy-bin-fhe with bit and polynomial selectors, and every cell of a GGSW produced by ggsw_encrypt_sk, ggsw_from_gglwe, ggsw_expand_row, ggsw_keyswitch(_assign), ggsw_automorphism(_assign): generated gadget shapes (dnum 1..4, dsize 1..4, spare limbs), rank 1..3, GGSW precision below / equal / above the GLWE precision, independent radices, m2 in {0, +-1, +-X^k, dense ternary, dense small, sparse}, inputs with uniform / extreme / sparse digits, in-place and out-of-place forms.',
+         'Trusted: hook H4, the phase model, the bound formula of gad.rs. Worst-case bound (about sqrt(N * digits) above typical noise). N <= 128.', 'DESIGN.md section 6 C04'),
  'C06': ('pzv-scheme', 'statistical property-based testing: model-free error extraction (difference of two encryptions sharing the mask seed) with exact discrete-moment oracles and concentration bounds at a fixed false-alarm budget',
          'For every encryption routine family (GLWE sk/pk, GGLWE, GGSW, switching/automorphism/tensor keys, compressed forms) over generated layouts: every error coefficient is inside the configured truncation bound (deterministic, every case); pooled over >= 2^15 (quick) / 2^17 (thorough) coefficients per case the second moment of e1-e2 matches twice the exact variance of the rounded truncated Gaussian (band from the exact fourth moment, per-run false-alarm budget 2^-30), the mean is centred, masks are not reused between cells and two seeds give different masks.',
          'Statistical: a deviation of the standard deviation below roughly 6 % (quick) / 3 % (thorough) is inside the band and not detected; distribution shape beyond the first four moments is not tested. Trusted: hook H4, the moment formulas (unit-tested against brute force).', 'DESIGN.md section 6 C06'),
